@@ -42,11 +42,12 @@ func helperKey(rel string, fd *ast.FuncDecl) string {
 }
 
 type normState struct {
-	p       *Prog
-	counter int
-	inlined map[string]bool
-	src     map[string][]byte // current content per file
-	sites   map[*types.Func]int
+	p        *Prog
+	counter  int
+	inlined  map[string]bool
+	src      map[string][]byte // current content per file
+	sites    map[*types.Func]int
+	tailMode bool // rendering a callee body for a `return f(...)` site: its returns stay returns
 }
 
 // Normalize returns an overlay in which new helpers are inlined (up to 3 rounds), and their names.
@@ -311,6 +312,7 @@ func (ns *normState) collect(p *Prog, pkg *packages.Package, f *ast.File, src []
 	handle := func(st ast.Stmt, enclosing *ast.FuncType) bool {
 		// returns true if the statement was rewritten
 		var call *ast.CallExpr
+		var andX, andY ast.Expr
 		kind := ""
 		neg := false
 		switch s := st.(type) {
@@ -334,6 +336,27 @@ func (ns *normState) collect(p *Prog, pkg *packages.Package, f *ast.File, src []
 			call, kind = s.Call, "defer"
 		case *ast.IfStmt:
 			cond := ast.Expr(s.Cond)
+			// `if X && [!]f(...) { B }` (no else): the helper is evaluated only when X holds, exactly as in
+			// `if X { r := f(...); if [!]r { B } }`
+			if be, ok := cond.(*ast.BinaryExpr); ok && be.Op == token.LAND && s.Else == nil {
+				y := be.Y
+				for {
+					if pe, ok := y.(*ast.ParenExpr); ok {
+						y = pe.X
+						continue
+					}
+					if ue, ok := y.(*ast.UnaryExpr); ok && ue.Op == token.NOT {
+						y = ue.X
+						continue
+					}
+					break
+				}
+				if c, ok := y.(*ast.CallExpr); ok {
+					call, kind = c, "ifand"
+					andX, andY = be.X, be.Y
+					break
+				}
+			}
 			for {
 				if pe, ok := cond.(*ast.ParenExpr); ok {
 					cond = pe.X
@@ -385,7 +408,10 @@ func (ns *normState) collect(p *Prog, pkg *packages.Package, f *ast.File, src []
 			}
 			rn := fmt.Sprintf("r%d%s", i, k)
 			rnames = append(rnames, rn)
-			fmt.Fprintf(&pre, "var %s %s\n", rn, ts)
+			if kind != "return" {
+				// `return f(...)`: the callee's returns stay returns of the caller (no result variables, no merged exit)
+				fmt.Fprintf(&pre, "var %s %s\n", rn, ts)
+			}
 		}
 		if kind == "return" {
 			want := 0
@@ -402,7 +428,7 @@ func (ns *normState) collect(p *Prog, pkg *packages.Package, f *ast.File, src []
 				return false
 			}
 		}
-		if (kind == "ifcond") && len(rnames) != 1 {
+		if (kind == "ifcond" || kind == "ifand") && len(rnames) != 1 {
 			return false
 		}
 		// callee body with renames
@@ -410,7 +436,9 @@ func (ns *normState) collect(p *Prog, pkg *packages.Package, f *ast.File, src []
 		if kind == "defer" {
 			bodyR = nil // inside `defer func(){...}()` a return stays a return; results are evaluated and dropped
 		}
+		ns.tailMode = kind == "return"
 		body, hasRet, ok := ns.renderBodyMode(p, ci, k, bodyR, kind == "defer")
+		ns.tailMode = false
 		if !ok {
 			return false
 		}
@@ -508,6 +536,17 @@ func (ns *normState) collect(p *Prog, pkg *packages.Package, f *ast.File, src []
 			}
 			return true
 		}
+		if kind == "return" {
+			fmt.Fprintf(&pre, "%s\n}\n", body)
+			*edits = append(*edits, textEdit{off(st.Pos()), off(st.End()), pre.String()})
+			ns.inlined[ci.key] = true
+			if ci.obj != nil {
+				ns.sites[ci.obj]++
+			} else {
+				ci.litDone++
+			}
+			return true
+		}
 		if hasRet {
 			fmt.Fprintf(&pre, "L%s:\nswitch {\ndefault:\n%s\n}\n", k, body)
 		} else {
@@ -529,6 +568,10 @@ func (ns *normState) collect(p *Prog, pkg *packages.Package, f *ast.File, src []
 		case "return":
 			fmt.Fprintf(&pre, "return %s\n", rlist)
 			*edits = append(*edits, textEdit{off(st.Pos()), off(st.End()), pre.String()})
+		case "ifand":
+			*edits = append(*edits, textEdit{off(andX.End()), off(andY.Pos()), " {\n" + pre.String() + "if "})
+			*edits = append(*edits, textEdit{off(call.Pos()), off(call.End()), rlist})
+			*edits = append(*edits, textEdit{off(st.End()), off(st.End()), "\n}\n"})
 		case "ifcond", "ifinit":
 			*edits = append(*edits, textEdit{off(st.Pos()), off(st.Pos()), pre.String()})
 			*edits = append(*edits, textEdit{off(call.Pos()), off(call.End()), rlist})
@@ -801,6 +844,9 @@ func (ns *normState) renderBodyMode(p *Prog, ci *calleeInfo, k string, rnames []
 					return true
 				}
 				hasRet = true
+				if ns.tailMode {
+					return true // spliced in at `return f(...)`: a return of the callee is a return of the caller
+				}
 				if closure {
 					if len(x.Results) == 0 {
 						return false // plain `return` stays
